@@ -412,6 +412,33 @@ static void run_subcell(Ctx &c, const Cell &cell, const SubCell &sc) {
     return;
   }
 
+  if (prop == "C09") {
+    // data dimension of C09: same input/overhead/cut, any thread count -> image identical to the 1-thread image,
+    // blocks in input order, every block complete (under the OS schedule; the schedule dimension is SX driver B)
+    if (k != K_BLOCKS || sc.src != "fresh") return;
+    Params p1 = p; p1.c = 1;
+    str ref;
+    { str key = fmt("blk1|") + p1.s(); auto it = CA.img.find(key);
+      if (it != CA.img.end()) ref = it->second;
+      else { StringDictionary *d1 = x_build(c, k, p1, cell.S); if (!d1) return; bool ok = x_save(c, d1, ref); x_delete(c, d1); if (!ok) return; CA.img[key] = ref; } }
+    StringDictionary *d = x_build(c, k, p, cell.S); if (!d) return;
+    c.objects++;
+    StringDictionaryHASHRPDACBlocks *b = (StringDictionaryHASHRPDACBlocks *)d;
+    // expected partition: a block closes when its accumulated size exceeds the cut size (or at the last string)
+    std::vector<size_t> starts; { size_t acc = 0; bool first = true; for (size_t i = 0; i < cell.S.size(); i++) { if (first) { starts.push_back(i); first = false; } acc += cell.S[i].size() + 1; if (acc > (size_t)p.b) { acc = 0; first = true; } } }
+    pg_op("inspect_blocks");
+    if (b->parts.size() != starts.size()) c.fail("build", "wrong_block_count", fmt("%zu blocks, expected %zu", b->parts.size(), starts.size()));
+    else for (size_t i = 0; i < starts.size(); i++) {
+      if (!b->parts[i]) { c.fail("build", "null_block_after_constructor", fmt("block %zu is null", i)); break; }
+      if (b->starting_indexes[i] != starts[i] || b->cut_samples[i] != cell.S[starts[i]]) { c.fail("build", "blocks_out_of_input_order", fmt("block %zu starts at %lu/'%s', expected %zu/'%s'", i, b->starting_indexes[i], show(b->cut_samples[i]).c_str(), starts[i], show(cell.S[starts[i]]).c_str())); break; }
+      size_t end = i + 1 < starts.size() ? starts[i + 1] : cell.S.size();
+      if (b->parts[i]->numElements() != end - starts[i]) { c.fail("build", "block_incomplete", fmt("block %zu holds %zu strings, expected %zu", i, (size_t)b->parts[i]->numElements(), end - starts[i])); break; }
+    }
+    str img; if (x_save(c, d, img) && img != ref) c.fail("save", "image_differs_from_single_thread", fmt("image with %ld threads differs from the 1-thread image (sizes %zu/%zu)", p.c, img.size(), ref.size()));
+    x_delete(c, d);
+    return;
+  }
+
   if (prop == "C08") {
     // (b) two builds -> identical images, also under a different heap fill byte
     str imgA, imgB, imgC;
@@ -504,6 +531,7 @@ static std::vector<SubCell> subcells_for(const str &prop, const Scope &sc, const
         if (prop == "C16" && s == "loaders" && !(p.s() == dom[0].s())) continue;
         if (prop == "C06" && s == "concat" && !(p.s() == dom[0].s())) continue;
         if (prop == "C12" && s != "fresh" && s != "gen:1" && s != "own:1") continue;
+        if (prop == "C09" && s != "fresh") continue;
         if (k == K_BLOCKS && s.compare(0, 3, "gen") == 0 && prop != "C06") continue;  // generic loader has no Blocks case: C06's business
         v.push_back({k, p, s});
       }
